@@ -39,6 +39,7 @@ def prototypes(rng, K, D, complex_):
 
 _C3 = [0]
 _MKC = {}
+_GAINR = {}
 
 
 def make_scene(rng, name, tier, force=None):
@@ -70,11 +71,14 @@ def make_scene(rng, name, tier, force=None):
     data = {}
     info = {'K': K, 'D': D, 'N': N, 'pert': pert}
 
+    _GAINR[name] = _GAINR.get(name, 0) + 1
+    lo, hi = [(-8, 8), (-100, 100), (-14, 2)][_GAINR[name] % 3]     # many decades; far below 1e-10; mostly quiet
+
     def complex_stream(shape_lead):
         P, mc = prototypes(rng, K, D, True)
         z = P[lab] + pert * pw * mm.crandn(rng, (N, D)) / np.sqrt(2 * D)
         # "any per-frame complex gains": magnitudes over many decades (frames of a quiet and a loud passage)
-        g = 10.0 ** rng.uniform(-8, 8, size=(N, 1)) * np.exp(2j * np.pi * rng.random((N, 1)))
+        g = 10.0 ** rng.uniform(lo, hi, size=(N, 1)) * np.exp(2j * np.pi * rng.random((N, 1)))
         return z * g, P, mc
 
     def real_stream(E, as_means):
@@ -83,7 +87,7 @@ def make_scene(rng, name, tier, force=None):
             P = P * float(rng.uniform(1.0, 5.0))
             y = P[lab] + pert * pw * rng.normal(size=(N, E)) / np.sqrt(E)
         else:
-            y = (P[lab] + pert * pw * rng.normal(size=(N, E)) / np.sqrt(E)) * 10.0 ** rng.uniform(-8, 8, size=(N, 1))
+            y = (P[lab] + pert * pw * rng.normal(size=(N, E)) / np.sqrt(E)) * 10.0 ** rng.uniform(lo, hi, size=(N, 1))
         return y, P, mc
     if name in mm.COMPLEX_MODELS:
         y, P, mc = complex_stream(())
